@@ -125,6 +125,11 @@ func TestVerifC15Archive(t *testing.T) {
 					if k%4 == 3 {
 						n = fmt.Sprintf("Syn%d-%d.header.txt", idx, k)
 					}
+					if k == 0 {
+						// the same file name in every synthetic archive, each time with another
+						// text (archives are loaded one after the other in one process)
+						n = "SynShared.txt"
+					}
 					synth[n] = vSynthLicense(r, 30+r.Intn(400))
 					if k == 2 || (k == 5 && pl.n > 6) {
 						// a license whose normalised text has only one or two words
@@ -136,6 +141,7 @@ func TestVerifC15Archive(t *testing.T) {
 						synth[n] = []string{"Copyright (c) 2020 Example Corp. All rights reserved.\n", "-----\n*****\n", "\n\n", "#!/bin/sh\n"}[r.Intn(4)]
 					}
 					os.WriteFile(filepath.Join(outDir, "files", n), []byte(synth[n]), 0644)
+					os.WriteFile(filepath.Join(outDir, "files", fmt.Sprintf("a%03d_%s", idx, n)), []byte(synth[n]), 0644)
 					names = append(names, n)
 				}
 				if pl.kind == "mixed" {
